@@ -276,6 +276,12 @@ def robustness_corpus(ctx, rng):
         out.append(('lp', rc.make_lp(fragment=i, pit_token=b'\x01\x02')))
         out.append(('lp', rc.make_lp(fragment=bytes(make_data(nm, MetaInfo(), b'w', sd)), headers=[(0x340, b'\x01')])))
         out.append(('lp', rc.make_lp(fragment=bytes(make_data(nm, MetaInfo(), b'w', sd)), nack_reason=100)))
+    for frag in (b'\xfd', b'\xfd\x00', b'\xfe', b'\xfe\x00\x00\x00', b'\xff', b'\xff' + bytes(7), b'\x05\xfd', b'\x06\xfe\x00', b'\xfd\x00\x05',
+                 b'\x05\x03\x07', b'\x06'):
+        # link-layer packets whose fragment is too short to carry a complete Type / Length number
+        out.append(('lp', rc.make_lp(fragment=frag)))
+        out.append(('lp', rc.make_lp(fragment=frag, pit_token=b'\x01\x02')))
+        out.append(('lp', rc.make_lp(fragment=frag, nack_reason=150)))
     out += [('lp', b'\x64\x00'), ('lp', rc.make_lp(fragment=b'')), ('lp', rc.make_lp(nack_reason=50)), ('lp', rc.make_lp(pit_token=b'abcd')),
             ('lp', rc.make_lp(fragment=b'\x05')), ('lp', rc.make_lp(fragment=b'\x09\x00')),
             ('lp', rc.make_lp(fragment=bytes(make_interest(P1, InterestParam())), frag_index=0, frag_count=2)),
@@ -348,6 +354,9 @@ def check_robustness(ctx, rng):
         t = rng.choice([5, 6, 0x64, 0x64, rng.randrange(256)])
         body = gen.rand_bytes(rng, L)
         deliveries.append(('random', 'random', rc.enc_tlv(t, body), 'framed'))
+        deliveries.append(('random', 'random-fragment', rc.make_lp(fragment=gen.rand_bytes(rng, rng.choice([1, 2, 3, 4, 8])) if rng.random() < 0.5 else
+                                                                  bytes([rng.choice([0xfd, 0xfe, 0xff, 5, 6])]) + gen.rand_bytes(rng, rng.choice([0, 1, 2, 3, 7])),
+                                                                  pit_token=rng.choice([None, b'\x01']), nack_reason=rng.choice([None, None, 50])), 'framed'))
         deliveries.append(('random', 'random', rc.enc_var(t) + body, 'as-is'))
     rng.shuffle(deliveries)
     if not ctx.quick:
